@@ -64,6 +64,26 @@ DESC = {
  'C14-B4': "compiled fast path of `spike_sync_multi` omits the trailing `MRTS` argument of the kernel; list forms ignore MRTS",
  'C18-A4': "compiled branch of `isi_distance_bi` hands `st.spikes` instead of `get_spikes_non_empty()` to the kernel: empty train, index outside the buffer",
  'C18-B4': "compiled branch of `spike_distance_bi` passes the still unresolved `'auto'` string as `double MRTS`",
+ 'C05-A5': "`interval[0] or t_start, interval[1] or t_end` in a new helper of the scalar route: an interval end exactly 0.0 is replaced by the recording edge; needs `t_start < 0 < t_end`",
+ 'C05-B5': "pairs of two empty trains filtered out before `L = len(pairs)`, which is also the divisor of the multivariate profile; needs >= 3 trains, two of them empty",
+ 'C07-A5': "`index2 is last2` (identity on a spike index) in `spike_distance_python`: like `==` up to 256, always False beyond; needs a train of >= 258 spikes as second argument",
+ 'C07-B5': "trailing edge correction rewritten with a loop-carried ISI; the tie-branch copy for train 2 lost its one-spike guard; needs a one-spike second argument tying with an inner spike of the first",
+ 'C09-A5': "single-piece shortcut in `add_piece_wise_lin_python` evaluates `y + slope*x` instead of `slope*(x - x0)`; needs a one-piece operand with a slope and `t_start != 0`",
+ 'C09-B5': "`average_profile` as recursive pairwise sum that copies only the first profile: with >= 4 profiles a caller's profile is used as accumulator",
+ 'C11-A5': "several intervals: touching intervals are joined before integrating, so an event exactly on the shared end is counted",
+ 'C11-B5': "smoothing refactored into a helper, the `mp[i] >= expected` early-out dropped: neighbours subtracted when an event's multiplicity exceeds the window",
+ 'C12-A5': "`spike_distance_python`: auxiliary edge spike of a one-spike train keeps the 0.0 of `np.zeros`; needs `t_start != 0`; `.pyx` untouched",
+ 'C12-B5': "fallback branch of `_spike_sync_values` returns `(n, n)` instead of `(2n, 2n)` for identical trains: pooled multivariate value differs from the compiled one; needs N >= 3 with a repeated train",
+ 'C13-A5': "`reconcile_spike_trains_bi` returns its arguments untouched when both are the same object; needs `f(a, a)` with an un-normalised `a`",
+ 'C13-B5': "`kwargs.get('Reconcile', True) is True` in the generic helpers: `Reconcile=1` / `np.True_` skips reconciliation; needs a multi/matrix form and raw trains",
+ 'C14-A5': "`np.array(spike_trains, dtype=object)[indices]` in the matrix helper: with equal spike counts in every train numpy builds a 2-D float array; matrix + `indices` raises",
+ 'C14-B5': "`np.ravel(interval)` in `_generic_distance_multi` flattens a sequence of intervals: list forms average over the first window only",
+ 'C18-A5': "`.tolist()` in `isi_distance_python`: Python-float 0/0 raises where `np.float64` gave a discarded NaN; needs both trains a single spike on `t_end`, MRTS = 0",
+ 'C18-B5': "`except ModuleNotFoundError` instead of `except ImportError` in `PieceWiseLinFunc.add`; needs an extension that is present but not loadable (plain ImportError) and a SPIKE profile of >= 3 trains",
+ 'C19-A5': "bin times by float-step `np.arange(start+bin, start+(n+1)*bin, bin)`: one entry too many for some non-dyadic widths, `t_end` a bin too late",
+ 'C19-B5': "bare `except:` narrowed to `except TypeError:` in the edge parsing of `SpikeTrain`: a numpy scalar edge raises IndexError",
+ 'C20-A5': "PSTH bin edges `t_start + (T/n)*arange(n+1)`: for some bin counts the last edge is one ulp below `t_end` and spikes on `t_end` are dropped",
+ 'C20-B5': "bare `except:` narrowed to `except TypeError:` in `generate_poisson_spikes`: a numpy scalar interval raises IndexError",
 }
 
 
